@@ -9,31 +9,31 @@ BASE_NOTE = (
 CHECKS = [
     {
         "id": "C01",
-        "technique": "static analysis: inter-procedural exception-effect closure over a type-resolved call graph; loop-body isolation; def-use dependence",
+        "technique": "static analysis: inter-procedural exception-effect closure over a type-resolved call graph; loop-body isolation; def-use dependence; sequence-length lower bounds for list/tuple indexing (regex-language field counts, accept-set guards)",
         "text": "Decides, for every raise/assert/implicit-raiser site reachable from the packet/message constructors and the transport/protocol "
         "receive callbacks (all 106 payload parsers included), that only PacketInvalid (or ValueError for Packet.from_*) can leave the "
         "constructors, that nothing leaves a receive callback or one iteration of a line-reading loop, and that serial frames depend on the "
-        "persistent receive buffer. Does not decide that valid lines decode correctly, nor frame equality over all read partitions (values).",
+        "persistent receive buffer. Does not decide that valid lines decode correctly, nor frame equality over all read partitions (values). IndexError from constant/range-bounded indexes into lists and tuples is modelled: each such site on the receive path is proven in bounds (e.g. the number of blank-separated fields of every string COMMAND_REGEX matches; the non-emptiness of pkt_addrs' filtered address list from its accept-set guard) or reported.",
         "note": BASE_NOTE,
     },
     {
         "id": "C13",
-        "technique": "static analysis: bracket pairing on all exits over a CFG with exceptional and cancellation edges; restricted exception-effect closure; single-writer and dominance rules",
+        "technique": "static analysis: bracket pairing on all exits over a CFG with exceptional and cancellation edges; restricted exception-effect closure; single-writer and dominance rules; input-dependent asserts and list/tuple index bounds in the views' closure; boolean-structure rule on the array-merge predicate",
         "text": "Decides that every path from Engine._pause() to any exit of Gateway.get_state/_restore_cached_packets (normal, exceptional, "
         "cancellation at each await) passes _resume(); that no public view (schema/params/status/traits/known_list/fault-log views, 59 "
         "properties) can raise ArithmeticError or a KeyError from a payload-derived key; that the fault-log map only holds timestamps present "
         "in the log; and that the gateway's message handlers and process_msg are fenced with entity handlers deferred. Does not decide "
-        "'every view after every history' beyond these classes, nor that foreign traffic never alters tracked state (behavioural).",
+        "'every view after every history' beyond these classes, nor that foreign traffic never alters tracked state (behavioural). The view closure also excludes AssertionError from asserts on payload-derived data and IndexError from constant indexes into sequences of unproven length. Also decides: the array-fragment merge requires whole-source and code equality and a time window as conjuncts of its predicate.",
         "note": BASE_NOTE + " datetime within 10 years of datetime.min/max is outside the model for this property.",
     },
     {
         "id": "C18",
-        "technique": "static analysis: bracket pairing on all exits (CFG with exceptional + cancellation edges); alias rule for module-level mutable constants; path/dominance rules",
+        "technique": "static analysis: bracket pairing on all exits (CFG with exceptional + cancellation edges); alias rule for module-level mutable constants; path/dominance rules; finite abstract evaluation (decision table with effects) of _is_dated",
         "text": "Decides that every path from tcs._obtain_lock() to any exit of a schedule transfer (incl. protocol errors from each fragment "
         "exchange and cancellation by the caller's timeout at each await) passes _release_lock(); that no module-level mutable sentinel is "
         "aliased by an instance attribute that is mutated in place; that the change counter is read with I/O before the first fragment request; "
         "and that overheard fragments are merged only under a test of the lock owner. Does not decide 'never a schedule stitched from two "
-        "versions' as a trace property, nor termination of the fragment loop.",
+        "versions' as a trace property, nor termination of the fragment loop. Also decides, from the decision table of Schedule._is_dated (opaque results of awaited calls are fresh atoms, calls are logged as effects): with force_io=True a 'not dated' answer is only given after the change counter was read with I/O.",
         "note": BASE_NOTE,
     },
     {
@@ -60,12 +60,12 @@ CHECKS = [
     },
     {
         "id": "C06",
-        "technique": "static analysis: structural rules over pkt_header/_pkt_idx (discriminator completeness), table agreement of the verb maps, guard dominance over the FSM's packet handlers",
+        "technique": "static analysis: structural rules over pkt_header/_pkt_idx (discriminator completeness), table agreement of the verb maps, guard dominance over the FSM's packet handlers; boolean-structure-aware guard implication; column-coverage rule between Frame._ctx and _pkt_idx",
         "text": "Necessary conditions: every header joins code + verb + device id and appends the payload context whenever it is a string; "
         "the RQ->RP / W->I reply map agrees between frame.pkt_header and the dispatcher; every FSM transition on a received packet is "
         "dominated by whole-header ==/!= tests against the sent command (no prefix/substring matching) with the single enumerated 0418 "
         "null-entry exception, and the gateway-id placeholder is substituted on both sides. Does not decide that real replies carry the "
-        "same context bytes, nor near-miss rejection over all values.",
+        "same context bytes, nor near-miss rejection over all values. Guards are only credited when their truth follows from the edge taken (conjuncts on a true edge, disjuncts on a false edge). Also decides: for every code-specific branch of Frame._ctx, the payload columns the context is built from cover the columns _pkt_idx reads for that code.",
         "note": BASE_NOTE,
     },
     {
@@ -80,123 +80,123 @@ CHECKS = [
     },
     {
         "id": "C08",
-        "technique": "static analysis: who-may-call + guard dominance, reaching definitions, interval analysis of the back-off exponent, queue-key typing",
+        "technique": "static analysis: who-may-call + guard dominance, reaching definitions, interval analysis of the back-off exponent, queue-key typing; finite-domain abstract evaluation of the exponent's net effect around the wait",
         "text": "Necessary conditions: retransmission only through one function, called from the dequeue and from effect_state under timed_out; "
         "timed_out requested at one site on the true edge of tx_count < tx_limit; tx_limit = min(qos.max_retries, min(arg, 3)) + 1; the "
         "back-off exponent provably stays in 0..3 and both waits are timeout * 2**exponent; one dequeue site, reached only with no future "
         "pending, skipping resolved entries; queue entries order by priority then a unique counter before any unorderable element. "
-        "Does not decide 'exactly 1+min(r,3) transmissions', FIFO or doubling as observed in time.",
+        "Does not decide 'exactly 1+min(r,3) transmissions', FIFO or doubling as observed in time. Also decides, by evaluating the coroutine's own updates of the exponent over its 0..3 domain: an unanswered wait leaves it at min(3, m+1) (the next wait is doubled, capped at 8x) and an answered one never raises it.",
         "note": BASE_NOTE,
     },
     {
         "id": "C10",
-        "technique": "static analysis: gate dominance in the filter mixin, MRO/who-may-call rules, clause-order and allow-set rules over the filter's decision list",
+        "technique": "static analysis: gate dominance in the filter mixin, MRO/who-may-call rules, clause-order and allow-set rules over the filter's decision list; finite abstract evaluation (complete decision table) of the filter predicate; memo-key completeness; write-once rule for the filter configuration",
         "text": "Decides that delivery and transmission are reachable only on the wanted edge of _is_wanted_addrs (for both src and dst, with the "
         "sending flag on the send gate), that no path bypasses the gates (MRO order, who may call _pkt_received/_msg_received/write_frame, the "
         "signature probe being the one named exception), that the block-list test precedes every allow clause, that the clauses exempt from "
         "known-list enforcement are exactly {active gateway, listed (incl. broadcast/null ids), sending from the placeholder id}, that devices "
         "are only created under check_filter_lists, and that select_device_filter_mode never switches enforcement on. Does not evaluate the "
-        "full truth table over all configurations.",
+        "full truth table over all configurations. R3/R4 are read off the complete decision table of _is_wanted_addrs computed by abstract evaluation of its source (per id: block-listed / active gateway / in known list / placeholder; flags sending, enforce_include): a block-listed src or dst is never wanted; under enforcement a packet is wanted iff both ids are in the stated allow set; without enforcement only the block list refuses. Also decides: no remembered verdict is looked up by a subset of the arguments, and the block list / known list / enforcement flags are written only in constructors.",
         "note": BASE_NOTE,
     },
     {
         "id": "C11",
-        "technique": "static analysis: who-may-call, decorator-stack and dominance/post-dominance rules over the limiter; constant folding of the rate constants; def-use dependence of the written bytes",
+        "technique": "static analysis: who-may-call, decorator-stack and dominance/post-dominance rules over the limiter; constant folding of the rate constants; def-use dependence of the written bytes; dataflow role recovery of the bucket variables; flow-sensitive snapshot analysis across awaits (atomicity); refill/stamp pairing on all paths",
         "text": "Regulator-in-place only - the numeric bound (bits per window, average spacing) is arithmetic over time and is not decided. Decides "
         "that nothing reaches serial.write / mqtt publish except through the regulated write_frame (bounded start-up probe excepted), that the "
         "decorators and the write-gap semaphore are in place and selected by constants in range, that the bucket is refilled before the test, "
         "the wait precedes the write and the debit post-dominates the write on all exits, that an over-budget MQTT write is dropped (nothing "
-        "queues frames), and that the bytes written depend only on the frame argument.",
+        "queues frames), and that the bytes written depend only on the frame argument. The limiter's statements are identified by dataflow roles (level, stamp, refill, debit, write), not by text. Also decides: no shared bucket variable is written from a snapshot of itself taken before an intervening await (lost-update under concurrent writers), and every refill is paired on all paths with an update of the time stamp it was computed from (serial limiter and MQTT token bucket).",
         "note": BASE_NOTE,
     },
     {
         "id": "C03",
-        "technique": "static analysis: registry agreement over folded tables, guard satisfiability (interval reasoning), abstract interpretation of payload strings into regular shapes with automata inclusion in the decoder's regexes",
+        "technique": "static analysis: registry agreement over folded tables, guard satisfiability (interval reasoning), abstract interpretation of payload strings into regular shapes with automata inclusion in the decoder's regexes; format-spec lint on payload segments; statement-order rule (validate after normalise)",
         "text": "Decides that each constructor is registered in CODE_API_MAP under exactly the (verb, code) pairs it can emit and that every public "
         "constructor is registered; that every guard of a `raise CommandInvalid` is satisfiable; that, for every constructor whose payload "
         "abstracts to a regular shape (fixed-width hex from format specs refined by the constructor's own range guards, codec helpers "
         "summarised from their source), the shape is included in the decoder's regex for that verb/code (shortest counter-example otherwise; "
         "index-taking constructors are grouped under _check_idx with the accepted index set per constructor); and OpenTherm parity agreement. "
-        "Does not decide that decoded values equal the arguments passed (needs execution).",
+        "Does not decide that decoded values equal the arguments passed (needs execution). Also decides: no payload segment that flows into a frame is formatted in decimal (unless its range is proven <= 9); no CommandInvalid guard reads a parameter ahead of the statement that re-binds it from itself, and no function that normalises an index with _check_idx() compares the raw parameter with index constants.",
         "note": BASE_NOTE + " Hex widths from format specs are exact modulo the codec's representable range (C04). Constructors whose payload does not abstract (listed in the evidence as undecided) are not covered by R3.",
     },
     {
         "id": "C02",
-        "technique": "static analysis: field layout derived by parsing the frame regexes vs constant slices; format-width agreement; field-order and delimiter agreement between writers and readers",
+        "technique": "static analysis: field layout derived by parsing the frame regexes vs constant slices; format-width agreement; field-order and delimiter agreement between writers and readers; finite abstract evaluation (decision table) of the seqn normalisation; mutation/alias rule for the logger's record mapping",
         "text": "Decides that every reader and writer of frame/log text agrees on where each field is: constant slices of frame text start/end on "
         "the field boundaries derived from COMMAND_REGEX/MESSAGE_REGEX and cover the field they are used as; the packet-log timestamp width "
         "computed from the formatter equals the readers' slice constants; Frame.__repr__/Command._from_attrs join fields in the order "
         "Frame.__init__ reads them with len = payload bytes; the annotation delimiters consumed equal those emitted, comment outermost. "
-        "Does not decide identity for every verb/seqn/address shape (values).",
+        "Does not decide identity for every verb/seqn/address shape (values). Also decides: a truncating slice on an assembled payload keeps the regex's maximum payload width; the seqn normalisation maps only None/blank forms to '---' (decision table over seqn in {None, 0, 7, '', '---', '000'}); and _Logger.makeRecord mutates its `extra` mapping (the packet's own __dict__) only after re-binding it to a copy.",
         "note": BASE_NOTE,
     },
     {
         "id": "C04",
-        "technique": "static analysis: numeric-idiom lint typed by mypy (truncating float scaling), sentinel-table inverse, bit-layout agreement by constant folding, sibling agreement, range-guard dominance",
+        "technique": "static analysis: numeric-idiom lint typed by mypy (truncating float scaling), sentinel-table inverse, bit-layout agreement by constant folding, sibling agreement, range-guard dominance; flow-sensitive column tracking of the date-time encoder's string",
         "text": "Decides the structural clauses of the codec property: encoders scale with a rounding idiom (int(float*k) must mis-encode some grid "
         "points - IEEE-754), sentinel tables of each encoder/decoder pair are mutual inverses, packed timestamp / datetime / device-id bit and "
         "column layouts agree between encoder and decoder, the duplicated device-id codecs agree, and every fixed-width hex field is bounded by "
         "a raising guard, a mask or construction (no silent wrap). Exactness on the whole grid (65,536 words, 2^24 ids) is about values and is "
-        "not decided.",
+        "not decided. Also decides: the DST flag (| 0x80) is or-ed into the seconds octet on every path through hex_from_dtm (the columns already cut off the string are tracked per program point) and the decoder masks that octet with 0b1111111.",
         "note": BASE_NOTE,
     },
     {
         "id": "C17",
-        "technique": "static analysis: struct-format agreement computed from the format strings, numeric-idiom rule, constant/regex-bound agreement and shape inclusion for the fragment write",
+        "technique": "static analysis: struct-format agreement computed from the format strings, numeric-idiom rule, constant/regex-bound agreement and shape inclusion for the fragment write; path rule on the reassembly function",
         "text": "Decides that pack/unpack agree on byte order, record size (= the decode stride) and field offsets; that setpoints are scaled with a "
         "rounding idiom and decoded by /100, time-of-day and zone-index codecs are inverse shapes; that a fragment (82 hex digits) equals the "
         "0404 regex bound and header+fragment fits the 48-byte frame payload, and the fragment-write payload shape is in the W|0404 regex "
         "language; and that the validator's time/setpoint grids fit the codec's. Identity for all schedules and reassembly under permuted or "
-        "repeated fragments are value/history properties and are not decided.",
+        "repeated fragments are value/history properties and are not decided. Also decides: in _update_payload_set every path after the fragment-count test stores the received fragment in its slot or restarts the set with it (a received fragment is never discarded in favour of an older copy).",
         "note": BASE_NOTE,
     },
     {
         "id": "C05",
-        "technique": "static analysis: JSON typing of produced values (mypy types + syntactic provenance), purity/effect analysis over the decode path's call graph, stride-vs-table agreement, guard rule for ratios, dispatch exhaustiveness",
+        "technique": "static analysis: JSON typing of produced values (mypy types + syntactic provenance), purity/effect analysis over the decode path's call graph, stride-vs-table agreement, guard rule for ratios, dispatch exhaustiveness; memoisation rule (cached functions return immutable values)",
         "text": "Decides that no value a payload parser (or helper) places in a returned dict has a non-JSON type; that nothing reachable from "
         "Packet()/Message() reads a clock/RNG/environment, declares global state or writes outside the frame's own memo fields (so decoding "
         "cannot depend on prior packets or caches); that each array-capable parser steps by 2 x the element length of CODES_WITH_ARRAYS; that "
         "every x/200 ratio is guarded at 1.0; and that every schema code has a registered parser. Does not decide element-wise equality of "
-        "values nor physical ranges beyond the guards.",
+        "values nor physical ranges beyond the guards. Also decides: every memoised (lru_cache) function on the decode path returns immutable values only, so no in-place annotation of one packet's payload can leak into another's.",
         "note": BASE_NOTE,
     },
     {
         "id": "C14",
-        "technique": "static analysis: path rule over the CFG of the value reader, constant/operator rules on the expiry predicate, input-dependence of the lifetime function, store-key rule",
+        "technique": "static analysis: path rule over the CFG of the value reader, constant/operator rules on the expiry predicate, input-dependence of the lifetime function, store-key rule; key-path extraction of the message store; selection-by-recency rule; finite abstract evaluation (decision table) of the expiry update chain; accessor discipline for payload reads",
         "text": "Decides that every path on which msg._expired was true ends in `return None` in the value reader; that expiry is "
         ">= HAS_EXPIRED with HAS_EXPIRED = 2.0, a 3 s grace subtracted from the age, the latch tested before any recomputation and "
         "CANT_EXPIRE -> False; that pkt_lifespan returns a timedelta on every path from verb/code/array-ness/the 3220 id only (no clock) and "
         "the schema's lifespan rows fold to timedelta|False|None; and that the message store is unconditional and keyed by the message's own "
-        "code/verb/context. Does not decide freshness under interleaving as a trace property.",
+        "code/verb/context. Does not decide freshness under interleaving as a trace property. Also decides: the message handed to the value reader is always a keyed lookup or max() over all candidates (Message orders by dtm); every non-RQ 1F09 takes its lifetime from the payload countdown in every row of the decision table of Message._expired's update chain; the per-context store is keyed [code][verb][_ctx] on every store path; and no entity property reads <Message>.payload (or an attribute caching a payload) without an _expired test (213 properties).",
         "note": BASE_NOTE,
     },
     {
         "id": "C12",
-        "technique": "static analysis: table exhaustiveness of the probe set (constant folding of role maps and registered payloads), handler coverage by guard dominance, must-write rule, monotone-container rule, restricted exception closure",
+        "technique": "static analysis: table exhaustiveness of the probe set (constant folding of role maps and registered payloads), handler coverage by guard dominance, must-write rule, monotone-container rule, restricted exception closure; post-dominance rule after class promotion; reaching-definition rule for the discovery decision",
         "text": "Narrow claim - reconstruction for every configuration under every loss pattern is behavioural and not decided. Decides that every "
         "role the controller can report (all heat-zone classes, sensor role, appliance control, both DHW valves, DHW sensor, each zone's own "
         "actuator role) is probed by a registered discovery command; that each probed code has a handler branch that attaches what the reply "
         "names; that a failed send re-arms the next-due time, is fenced, and cannot end the poller; and that the topology containers only "
-        "grow. The explicit LookupError in _get_msg_by_hdr is listed as undecided.",
+        "grow. The explicit LookupError in _get_msg_by_hdr is listed as undecided. Also decides: every zone promotion (`self.__class__ = ...`) is followed on all paths by a rebuild of the probe table, and in Gateway.start the restoring assignment of config.disable_discovery dominates the test that guards initiate_discovery().",
         "note": BASE_NOTE,
     },
     {
         "id": "C15",
-        "technique": "static analysis: guarded-single-writer rule for topology fields, produced-keys ⊆ accepted-keys by structural extraction of the voluptuous schemas, regex-language vs index-range agreement (automata)",
+        "technique": "static analysis: guarded-single-writer rule for topology fields, produced-keys ⊆ accepted-keys by structural extraction of the voluptuous schemas, regex-language vs index-range agreement (automata); acceptance-order and clearing rules for topology writes; regex-language inclusion for unconstrained roles",
         "text": "Decides that the parent/controller/role fields of the topology are only written in constructors, in Child.set_parent after the "
         "parent- and controller-change checks, in Parent._add_child under an 'already set and different => SystemSchemaInconsistent' test, or "
         "from get_device(..., parent=self); that the literal keys produced by the schema properties are accepted by the PREVENT_EXTRA "
         "validators; that the zone-index domain allowed by max_zones is within the validator's idx regex and Length bound; and the duplicate "
-        "guards. Does not decide that a re-loaded schema reproduces the same objects (execution).",
+        "guards. Does not decide that a re-loaded schema reproduces the same objects (execution). Also decides: set_parent records _parent/_child_id only after parent._add_child() accepted the child; role fields are never cleared outside constructors; and a role that _add_child admits without any type test on the child is reported under a schema key whose validator accepts every well-formed device id (else finding F30).",
         "note": BASE_NOTE,
     },
     {
         "id": "C16",
-        "technique": "static analysis: dominance in the snapshot's admission filter, format agreement of the storage form, argument agreement of the restore path",
+        "technique": "static analysis: dominance in the snapshot's admission filter, format agreement of the storage form, argument agreement of the restore path; finite abstract evaluation (complete decision table) of the admission filter",
         "text": "Narrow claim - the fixed point snapshot -> restore -> snapshot is behavioural and not decided. Decides that the snapshot filter admits "
         "no RQ, no W other than 0404 fragments, and no expired packet unless asked (every truthy return dominated by the verb and expiry "
         "tests); that the stored key/value split of repr(pkt) matches Packet.__repr__/from_dict; and that the restore feeds the packets "
-        "through the gateway's own handler and filter lists.",
+        "through the gateway's own handler and filter lists. R1 is read off the complete decision table of wanted_msg (verb x code x expired x include_expired) computed by abstract evaluation of its source: no admitted row has verb RQ, W only with code 0404, and an expired row is admitted only when asked for (per code; 313F is the recorded finding F16).",
         "note": BASE_NOTE,
     },
 ]
